@@ -919,6 +919,115 @@ func c14redec(c *Ctx, t *c14type, x, y []byte) {
 	c.Emit("redec %s %s %s | %s", t.name, hx(x), hx(y), obs)
 }
 
+// c14joint: the JOINT boundary of every list of variable-size items: the maximum count with every item at the maximum
+// item size (and a mix of sizes just below it).  In-limit values, so encode and decode(encode) must both succeed.
+func c14joint(c *Ctx, t *c14type) {
+	r := c.Rng
+	for i, s := range t.fields {
+		if s.kind != 'L' || s.itemMax == 0 || s.noItemOver || s.max > 1000 {
+			continue
+		}
+		variants := 2
+		if s.max*s.itemMax > 100000 {
+			variants = 1 // a hundred kilobytes per line and quadratic slicing on the model side: one case
+		}
+		if s.max*s.itemMax > 300000 && c.Tier != "thorough" {
+			continue // half a megabyte (EphemeralHeaderPayload 256 x 2048): minutes on the model side, thorough tier only
+		}
+		for v := 0; v < variants; v++ {
+			f, ok := c14gen(c, t, -1)
+			if !ok {
+				continue
+			}
+			for k, o := range t.fields { // keep the other fields small
+				if k != i && o.kind == 'B' && o.arr == 0 && o.exact == 0 && !o.bitlist && len(f[k].b) > 64 {
+					f[k].b = f[k].b[:r.Intn(64)]
+				}
+				if k != i && o.kind == 'L' && o.cnt == 0 && len(f[k].l) > 2 {
+					f[k].l = f[k].l[:2]
+				}
+			}
+			l := make([][]byte, s.max)
+			for j := range l {
+				n := s.itemMax
+				if v == 1 {
+					n -= j % 4
+				}
+				l[j] = r.Bytes(n)
+			}
+			f[i].l = l
+			c.Count("type_" + t.name + "_value_joint_boundary")
+			c14value(c, t, f)
+		}
+	}
+}
+
+// c14gap: a second encoding of a genuine value - g junk bytes between the fixed part and the first variable-size
+// field, every field offset raised by g.  The first offset then no longer equals the size of the fixed part: must be rejected.
+func c14gap(c *Ctx, t *c14type, enc []byte) {
+	if len(t.fixOffs) == 0 || t.fixOffs[0]+4 > len(enc) {
+		return
+	}
+	r := c.Rng
+	first := int(c14getU32(enc, t.fixOffs[0]))
+	if first > len(enc) {
+		return
+	}
+	for _, g := range []int{1, 4, 1 + r.Intn(16)} {
+		m := append(append(cp(enc[:first]), r.Bytes(g)...), enc[first:]...)
+		for _, p := range t.fixOffs {
+			c14putU32(m, p, c14getU32(m, p)+uint32(g))
+		}
+		c.Count("type_" + t.name + "_bytes_first_offset_gap")
+		c14bytes(c, t, m)
+	}
+}
+
+// c14decreasing: field offsets that run backwards.  With every variable-size field non-empty, offset k is set just
+// below offset k-1 (and, from the third offset on, back to the first offset): must be rejected, never sliced.
+func c14decreasing(c *Ctx, t *c14type) {
+	dyn := c14dynFields(t)
+	if len(dyn) != len(t.fixOffs) || len(dyn) < 2 {
+		return
+	}
+	r := c.Rng
+	base, _ := c14gen(c, t, -1)
+	for _, k := range dyn {
+		switch t.fields[k].kind {
+		case 'B':
+			if !t.fields[k].bitlist {
+				base[k].b = r.Bytes(5 + r.Intn(20))
+			}
+		case 'L':
+			base[k].l = [][]byte{r.Bytes(3), r.Bytes(2)}
+		case 'U':
+			base[k].nl = []uint64{7, 9}
+		}
+		if t.fields[k].nibble {
+			for j := range base[k].b {
+				base[k].b[j] &= 0x0f
+			}
+		}
+	}
+	enc, obs := c14enc(t, base)
+	if !strings.HasPrefix(obs, "ok") {
+		return
+	}
+	for k := 1; k < len(t.fixOffs); k++ {
+		prev := c14getU32(enc, t.fixOffs[k-1])
+		vals := []uint32{prev - 1, prev - 4}
+		if k >= 2 {
+			vals = append(vals, c14getU32(enc, t.fixOffs[0]), c14getU32(enc, t.fixOffs[0])+1)
+		}
+		for _, v := range vals {
+			m := cp(enc)
+			c14putU32(m, t.fixOffs[k], v)
+			c.Count("type_" + t.name + "_bytes_decreasing_offsets")
+			c14bytes(c, t, m)
+		}
+	}
+}
+
 // fixed-part prefix of an encoding of the "empty" value, used to aim the four-byte strings at the list field
 func c14emptyPrefix(t *c14type) []byte {
 	f := make([]c14field, len(t.fields))
@@ -1063,6 +1172,13 @@ func runC14(c *Ctx) {
 				if enc, _ := c14enc(t, f); enc != nil && (len(enc) < 6000 || t.small) {
 					pool = append(pool, enc)
 				}
+			}
+		}
+		if !t.small {
+			c14joint(c, t)
+			c14decreasing(c, t)
+			if len(pool) > 0 {
+				c14gap(c, t, pool[r.Intn(len(pool))])
 			}
 		}
 		// ---- encodings held across later encodes; decoding twice into one object
